@@ -1,9 +1,11 @@
 (* C14 — action selection follows the documented boolean semantics.
-   Only statements, each closed by [exact]; proofs live in Proofs/DoIf.v and Proofs/MatchFields.v.
+   Only statements, each closed by [exact]; proofs live in Proofs/DoIf.v, Proofs/DoIfData.v,
+   Proofs/DoIfChain.v and Proofs/MatchFields.v.
    External behaviour is universally quantified: [lower] (bytes.ToLower), [re_match] (Go regexp),
    [any] (bytes.ContainsAny), [ptime] (xtime.ParseTime), [aint] (insane-json AsInt), [re_ok]
    (regexp.Compile succeeds). *)
-From Verif Require Import Base.Sx Base.GoSem Base.Json Model.DoIf Model.MatchFields Proofs.DoIf Proofs.MatchFields.
+From Verif Require Import Base.Sx Base.GoSem Base.Json Model.DoIf Model.MatchFields Proofs.DoIf Proofs.MatchFields
+  Proofs.DoIfData Proofs.DoIfChain.
 From Coq Require Import Permutation.
 
 (* do_if: for every rule tree the constructors accept (any depth, any width, every operator) and
@@ -135,6 +137,70 @@ Theorem c14_match_fields_order :
 Proof. exact match_fields_perm. Qed.
 Print Assumptions c14_match_fields_order.
 
+(* ---- the second caller of a checker: antispam rules (pipeline/antispam) ----------------------- *)
+(* the data is (record bytes, source name, meta map); field operations over  event | source_name |
+   meta.<key>  and and / or / not are supported, every other path is absent and the length /
+   timestamp / type leaves never hold (antispam/README.md). For every rule tree the constructors
+   accept and every datum the decision computed with the short-cuts is the documented one. *)
+Theorem c14_antispam_check_eq_eval :
+  forall lower re_match any re_ok n d,
+    wfb re_ok n = true ->
+    lower_hyp_as lower n d = true ->
+    check_as lower re_match any n d = eval_as lower re_match any n d.
+Proof. exact check_as_eq_eval_as. Qed.
+Print Assumptions c14_antispam_check_eq_eval.
+
+Theorem c14_antispam_check_eq_eval_bytewise_lower :
+  forall lower re_match any re_ok,
+    (forall x, length (lower x) = length x) ->
+    (forall k x, lower (firstn k x) = firstn k (lower x)) ->
+    (forall k x, lower (skipn k x) = skipn k (lower x)) ->
+    forall n d, wfb re_ok n = true -> check_as lower re_match any n d = eval_as lower re_match any n d.
+Proof. exact check_as_eq_eval_as_global. Qed.
+Print Assumptions c14_antispam_check_eq_eval_bytewise_lower.
+
+(* a rule built of field operations over the three documented paths decides an antispam datum exactly
+   as it decides the event  {"event": ..., "source_name": ..., "meta": {...}} : one semantics, two callers *)
+Theorem c14_antispam_is_check_on_tree :
+  forall lower re_match any ptime aint n d now,
+    documented_paths n = true ->
+    check_as lower re_match any n d = check lower re_match any ptime aint n (as_tree d) now.
+Proof. exact check_as_is_check_on_tree. Qed.
+Print Assumptions c14_antispam_is_check_on_tree.
+
+(* ---- action chains: processor.doActions over the actions of a pipeline ------------------------ *)
+(* which actions every event of a stream enters and which events reach the output — through pass /
+   break / discard / collapse results and busy actions — is the same whether every selector is
+   computed with the code's short-cuts or read as documented *)
+Theorem c14_chain_check_eq_eval :
+  forall lower re_match any ptime aint re_ok acts sts (evs : list (json * Z)),
+    (forall e, In e evs -> chain_ok lower re_match any re_ok acts (fst e)) ->
+    chain_run (fun e n => check lower re_match any ptime aint n (fst e) (snd e)) acts sts evs
+    = chain_run (fun e n => eval lower re_match any ptime aint n (fst e) (snd e)) acts sts evs.
+Proof. exact chain_check_eq_eval. Qed.
+Print Assumptions c14_chain_check_eq_eval.
+
+(* whether action i is applied to an event is exactly: the event got as far as action i (every earlier
+   action it entered passed it on) and the selector of action i holds — for every chain, every
+   position and every decision function, whenever no action is in the middle of a sequence *)
+Theorem c14_chain_entered_exact :
+  forall dec acts sts i a s,
+    length sts = length acts ->
+    forallb (fun s => negb (cs_busy s)) sts = true ->
+    nth_error acts i = Some a -> nth_error sts i = Some s ->
+    nth_error (fst (fst (chain_step dec acts sts))) i
+    = Some (sel_dec dec a && forallb (gets_past dec) (firstn i (combine acts (results_of acts sts)))).
+Proof. exact chain_entered_exact. Qed.
+Print Assumptions c14_chain_entered_exact.
+
+(* the one exception, as coded (the join protocol): an action that answered `collapse` is entered by
+   the next event of the stream that reaches it whatever its selector says *)
+Theorem c14_chain_busy_entered :
+  forall dec a ar s sr,
+    cs_busy s = true -> hd_error (fst (fst (chain_step dec (a :: ar) (s :: sr)))) = Some true.
+Proof. exact chain_busy_entered. Qed.
+Print Assumptions c14_chain_busy_entered.
+
 (* non-vacuity: a depth-3 tree over a nested event meets wfb / lower_hyp / cont_ok and is decided
    "true" through a truncated case-insensitive prefix, a length bucket, a de-duplicated type list and
    the size of a nested object; the README example of match_mode "and" with a regexp is discarded *)
@@ -162,3 +228,32 @@ Example c14_match_fields_nonvacuous :
   /\ is_match ex_re MAndPrefix true ex_conds ex_legacy_event = false
   /\ is_match ex_re MOr false ex_conds (JObj [([110]%N, JStr [120]%N)]) = false.
 Proof. vm_compute. repeat split. Qed.
+
+(* the README rule `custom_threshold` (pipeline/README.md, Antispam) on a matching and a non-matching datum;
+   a length leaf never holds on antispam data *)
+Definition ex_as_rule : node :=
+  NAnd [ NField FContains [b_meta; [115]%N] true (Some [116; 115]%N) [];
+         NField FPrefix [b_event] false (Some [123; 34; 76]%N) [] ].
+Definition ex_as_datum (ev : bytes) : asdata :=
+  {| as_event := ev; as_source := [120]%N; as_meta := [([115]%N, [109; 116; 115]%N)] |}.
+Example c14_antispam_nonvacuous :
+  wfb all_ok ex_as_rule = true /\ documented_paths ex_as_rule = true
+  /\ lower_hyp_as ascii_lower ex_as_rule (ex_as_datum [123; 34; 108; 34]%N) = true
+  /\ check_as ascii_lower no_re no_re ex_as_rule (ex_as_datum [123; 34; 108; 34]%N) = true
+  /\ eval_as ascii_lower no_re no_re ex_as_rule (ex_as_datum [123; 34; 108; 34]%N) = true
+  /\ check_as ascii_lower no_re no_re ex_as_rule (ex_as_datum [123; 120]%N) = false
+  /\ check_as ascii_lower no_re no_re (NLen LByte [b_event] CGe 0) (ex_as_datum [123]%N) = false.
+Proof. vm_compute. repeat split. Qed.
+
+(* a join-like chain: action 0 is selected by the first line only and collapses it and the next line it
+   is handed while busy; action 1 has no selector; the second event does not satisfy the selector of
+   action 0 and is entered all the same *)
+Definition ex_first : node := NField FEqual [[108]%N] true (Some [101]%N) [].
+Definition ex_chain : list cact :=
+  [ {| ca_sel := Some ex_first; ca_script := [RCollapse; RCollapse; RPass] |}; {| ca_sel := None; ca_script := [RPass] |} ].
+Definition ex_line (l : bytes) : json := JObj [([108]%N, JStr l)].
+Example c14_chain_nonvacuous :
+  chain_run (fun e n => check ascii_lower no_re no_re no_time no_int n e 0) ex_chain (cst_init ex_chain)
+            [ex_line [105]%N; ex_line [101]%N; ex_line []; ex_line [105]%N; ex_line [105]%N]
+  = [([false; true], true); ([true; false], false); ([true; false], false); ([true; true], true); ([false; true], true)].
+Proof. vm_compute. reflexivity. Qed.
